@@ -394,7 +394,7 @@ def prepare(ctx):
                     out.append(("tlc", json.loads(line)))
         return out
 
-    own = [("directed", s) for s in directed()] + [("random", s) for s in random_scenarios(ctx.seed, 250 if q else 6000)]
+    own = [("directed", s) for s in directed()] + [("random", s) for s in random_scenarios(ctx.seed, 250 if q else 4500)]
     # the real-clock sample: cheap scenarios (the constants of aliyun.go are paid), one per process
     cheap = [s for _, s in own if cost(s) <= (6 if q else 25)]
     random.Random(ctx.seed).shuffle(cheap)
